@@ -191,3 +191,8 @@ package error
 
 //@ closure InvalidIndentType$1
 //@   pure
+
+//@ func ReadFileError
+//@   requires err != nil
+//@   modifies nothing
+//@   ensures result != nil && fresh(result)
